@@ -64,7 +64,7 @@ func tamperCase() Case {
 }
 
 func concCase(prop, engine string, weight int, free bool, oracles map[string]bool) Case {
-	prof := dbworld.Profile{Prop: prop, Oracles: oracles, CondHeavy: prop == "C09"}
+	prof := dbworld.Profile{Prop: prop, Oracles: oracles, CondHeavy: prop == "C09", DiskFaults: prop == "C04"}
 	return Case{Prop: prop, Engine: engine, Weight: weight,
 		Real: []string{"db", "acl", "audit", "server handlers", "client/setec.Client", "tink AEAD (real key)", "tmpfs file system"},
 		Stub: []string{"tailnet WhoIs", "network (in-process transport)", "goroutine scheduler (baton at lock/audit/WhoIs/transport park points)"},
@@ -118,6 +118,7 @@ var Cases = []Case{
 	concCase("C06", "dbworld-conc-free", 1, true, orc("audit-file")),
 	concCase("C06", "dbworld-conc", 1, false, orc("audit-sync", "deadlock")),
 	concCase("C09", "dbworld-conc", 1, false, orc("linearizable", "deadlock")),
+	concCase("C04", "dbworld-conc-disk", 1, false, orc("linearizable", "deadlock", "disk-equals-served")),
 	{Prop: "C17", Engine: "backupworld", Weight: 1,
 		Real: []string{"server/backup.go (periodicBackup, doBackup)", "db (real file on tmpfs)", "aws-sdk-go-v2 s3 client (signing, serialisation)", "package time under testing/synctest"},
 		Stub: []string{"S3 endpoint (in-memory bucket as the SDK's HTTPClient)", "goroutine scheduler (baton at database-lock and upload park points)"},
